@@ -63,3 +63,5 @@ CHECKS = [
                          f"{TR}.accumulate._check_expects_grad", f"{TR}.accumulate._expects_grad", f"{TR}.base.Transform.__call__"],
           accumulate_check, replay_keys=["C06."]),
 ]
+
+VALIDATE_LAYOUT_PRIMS = True  # [V] the layout primitive contracts are sampled against real torch on every run
